@@ -68,6 +68,9 @@ func genC13(r *RNG, idx int, tier string) *Scenario {
 		w.Cfg.CropFileFormat = "txt"
 	case "measurement":
 		w.Cfg.MeasFmt = "txt"
+		if r.Bool(0.35) {
+			w.Meas.Short = true // measured down to 9 dm only
+		}
 	case "weather-0-1", "weather-0-2", "weather-1-2":
 		sc.Grid = true
 		w.Cfg.WeatherLayout = int(kind[8] - '0')
@@ -85,6 +88,22 @@ func genC13(r *RNG, idx int, tier string) *Scenario {
 		if w.Weather.HasVerd {
 			w.Weather.HasVerd = w.Cfg.ETpot == 1
 		}
+		// stratum: decisions that look across the year end. Automatic irrigation (with its two-day rain forecast) is
+		// kept wanting water in every stage, December is dry and the new year begins with rain: what the model sees
+		// "behind 31 December" depends on how much of the series a layout has loaded.
+		if r.Bool(0.35) && len(w.Rot) > 1 {
+			w.Cfg.AutoIrr, w.IrrOn = true, true
+			for i := range w.Auto {
+				w.Auto[i].IrrSt1, w.Auto[i].IrrSt2, w.Auto[i].IrrLow, w.Auto[i].IrrDep = 1, 6, 95, 30
+			}
+			for y := w.Start().Year(); y <= w.Cfg.End.Year(); y++ {
+				w.Weather.Events = append(w.Weather.Events,
+					WeatherEvent{Day: DayOf(y, 12, 18), Kind: "drought", Len: 14},
+					WeatherEvent{Day: DayOf(y+1, 1, 1), Kind: "rain", Val: float64(r.PickI([]int{0, 12, 30}))},
+					WeatherEvent{Day: DayOf(y+1, 1, 2), Kind: "rain", Val: float64(r.PickI([]int{0, 12, 30}))})
+			}
+			sc.Params["newyear"] = "1"
+		}
 	case "dateformat":
 		others := []string{}
 		for _, f := range allDateFormats {
@@ -99,6 +118,22 @@ func genC13(r *RNG, idx int, tier string) *Scenario {
 			others = append(others, f)
 		}
 		sc.Params["fmt2"] = r.PickS(others)
+		if (w.Cfg.DateFormat == DEshort || w.Cfg.DateFormat == ENshort) && r.Bool(0.5) {
+			// edge of the century window: DivideCentury is the two-digit year of the earliest date any input file carries
+			first := w.Start()
+			if w.Decoys > 0 {
+				first = w.Start() - 300 // decoy lines of other fields reach back 300 days
+			}
+			for _, d := range []Day{w.Rot[0].Sow, w.Meas.Day, w.Weather.FirstDay} {
+				if d < first {
+					first = d
+				}
+			}
+			if y := first.Year(); y >= 1902 && y <= 1999 && w.Cfg.End.Year()+2 <= y+99 {
+				w.Cfg.DivideCentury = y - 1900 // the window is 1900+DivideCentury .. 1999+DivideCentury
+				sc.Params["centedge"] = "1"
+			}
+		}
 	}
 	return sc
 }
